@@ -1,16 +1,11 @@
 (* C17 — the (state, operation) -> documented error table, supported features, payloads. *)
 From Coq Require Import ZArith NArith List Bool Arith Lia.
 From Falcon.gen Require Import ConstsC17.
-From Falcon.C17 Require Import Model Spec Proofs ProofsSession.
+From Falcon.C17 Require Import Model Spec Proofs ProofsStop ProofsSession.
 Import ListNotations.
 Open Scope Z_scope.
 
 Definition wf (w : ws) : Prop := st w = Handshake -> flag w = None.
-
-(* the background receiver has not been stopped on a socket that is still ACCEPTED
-   (see known finding C17-receive-after-stopped-receiver-assert) *)
-Definition receiver_ok (c : cfg) (w : ws) : Prop :=
-  pump w = true \/ cap c = 0%nat \/ st w <> Accepted.
 
 Ltac crush :=
   repeat (cbn in *;
@@ -41,11 +36,10 @@ Proof.
 Qed.
 
 Lemma op_recv_table k c w :
-  receiver_ok c w ->
-  is_internal (fst (op_recv k c w)) = false
-  /\ (st w = Handshake -> fst (op_recv k c w) = Raise XNotAllowed).
+  is_internal (fst (op_recv true k c w)) = false
+  /\ (st w = Handshake -> fst (op_recv true k c w) = Raise XNotAllowed).
 Proof.
-  intro Hrx. unfold op_recv, require_accepted.
+  unfold op_recv, require_accepted.
   destruct (st w) eqn:Est; [split; [reflexivity | reflexivity]| |split; [reflexivity|discriminate]].
   split; [|discriminate].
   unfold do_receive, next_event.
@@ -55,15 +49,23 @@ Proof.
   - destruct (pump w) eqn:Ep; cbn.
     + destruct (queue (match queue w with [] => advance c w | _ :: _ => w end)) as [|e r];
         [reflexivity|]. destruct e; destruct k as [|[|k]]; reflexivity.
-    + destruct Hrx as [A|[A|A]]; [congruence| |congruence].
-      rewrite A in Ec. discriminate.
+    + destruct (queue w) as [|e r]; [destruct k as [|[|k]]; reflexivity|].
+      destruct e; destruct k as [|[|k]]; reflexivity.
+Qed.
+
+(* the same statement is false of the code as found: a receive on a stopped receiver fails
+   an internal assertion *)
+Lemma op_recv_internal_before_fix :
+  exists k c w, is_internal (fst (op_recv false k c w)) = true.
+Proof.
+  exists 0%nat, (mkCfg true true 1 1011),
+         (mkWs Accepted None [CText 5] None None false [] [] [] false). reflexivity.
 Qed.
 
 Theorem misuse_table hr c o w :
-  wf w -> receiver_ok c w ->
-  misuse_ok c (pub_of w) o (fst (run_op true hr c o w)) = true.
+  wf w -> misuse_ok c (pub_of w) o (fst (run_op true hr c o w)) = true.
 Proof.
-  intros Hwf Hrx. destruct o.
+  intros Hwf. destruct o.
   - (* accept *)
     unfold run_op, op_accept, pub_of, misuse_ok.
     destruct (st w) eqn:Est.
@@ -111,26 +113,24 @@ Proof.
       * destruct (do_send_shape (if bin then EBytes n else EText n) w)
           as [[w' ->]|[[z [w' ->]]|[[w' ->]|[w' ->]]]]; reflexivity.
     + unfold is_closed. rewrite Est. reflexivity.
-  - destruct (op_recv_table 0 c w Hrx) as [A B]. unfold run_op, misuse_ok, pub_of. rewrite A. cbn.
+  - destruct (op_recv_table 0 c w) as [A B]. unfold run_op, misuse_ok, pub_of. rewrite A. cbn.
     destruct (st w) eqn:Est; [rewrite (B eq_refl); reflexivity | |]; destruct (is_closed w); reflexivity.
-  - destruct (op_recv_table 1 c w Hrx) as [A B]. unfold run_op, misuse_ok, pub_of. rewrite A. cbn.
+  - destruct (op_recv_table 1 c w) as [A B]. unfold run_op, misuse_ok, pub_of. rewrite A. cbn.
     destruct (st w) eqn:Est; [rewrite (B eq_refl); reflexivity | |]; destruct (is_closed w); reflexivity.
-  - destruct (op_recv_table 2 c w Hrx) as [A B]. unfold run_op, misuse_ok, pub_of. rewrite A. cbn.
+  - destruct (op_recv_table 2 c w) as [A B]. unfold run_op, misuse_ok, pub_of. rewrite A. cbn.
     destruct (st w) eqn:Est; [rewrite (B eq_refl); reflexivity | |]; destruct (is_closed w); reflexivity.
   - destruct r; reflexivity.
   - reflexivity.
 Qed.
 
-(* without the hypothesis on the receiver the table is false of the code (as found and after
-   the fixes): the known finding *)
-Lemma misuse_table_refuted_when_receiver_stopped :
-  exists c w o, wf w /\ misuse_ok c (pub_of w) o (fst (run_op true (fun _ => false) c o w)) = false.
+(* the table is false of the code as found: the finding *)
+Lemma misuse_table_refuted_before_fix :
+  exists c w o, wf w /\ misuse_ok c (pub_of w) o (fst (run_op false (fun _ => false) c o w)) = false.
 Proof.
   exists (mkCfg true true 1 1011),
          (mkWs Accepted None [CText 5] None None false [] [] [] false), ORecvText.
   split; [discriminate | reflexivity].
 Qed.
-
 
 (* ---- accept headers / close reasons only for servers that support them *)
 Definition okev (c : cfg) (a : event * sfail) : bool :=
@@ -177,7 +177,7 @@ Lemma op_close_ext f hr c ca reason w r w' : op_close f hr c ca reason w = (r, w
 Proof.
   unfold op_close. set (w0 := set_pump false (set_hand None w)).
   assert (E0 : ext c w w0) by (apply ext_same; reflexivity).
-  destruct (code_check ca); [|intro H; injection H as <- <-; exact E0].
+  destruct (code_check ca); [|intro H; injection H as <- <-; destruct f; [apply ext_refl | exact E0]].
   destruct (is_closed w0); [intro H; injection H as <- <-; exact E0|].
   assert (Ho : okev c (EClose (or1000 o) ((reason || hr (or1000 o)) && reason_ok c), SOk) = true).
   { unfold okev. cbn. destruct ((reason || hr (or1000 o)) && reason_ok c) eqn:E; [|reflexivity].
@@ -191,30 +191,6 @@ Proof.
     destruct k; intro H; injection H as <- <-; (eapply ext_trans; [exact E0|]);
       try exact E1.
     all: try (eapply ext_trans; [exact E1|]; apply ext_same; reflexivity).
-Qed.
-
-Lemma advance_trace c w : trace (advance c w) = trace w.
-Proof.
-  unfold advance. destruct (pump w); [|reflexivity].
-  set (w1 := match hand w with Some e => _ | None => w end).
-  assert (T1 : trace w1 = trace w).
-  { subst w1. destruct (hand w); [|reflexivity]. destruct (_ <? _)%nat; reflexivity. }
-  destruct (hand w1); [exact T1|]. destruct (flag w1); [exact T1|].
-  destruct (pull _ _ _) as [[[q h] rest] f]. cbn. exact T1.
-Qed.
-
-Lemma op_recv_trace k c w r w' : op_recv k c w = (r, w') -> trace w' = trace w.
-Proof.
-  unfold op_recv. destruct (require_accepted w); [intro H; injection H as <- <-; reflexivity|].
-  unfold do_receive, next_event.
-  destruct (cap c =? 0)%nat.
-  - destruct (client w) as [|e rest]; [intro H; injection H as <- <-; reflexivity|].
-    destruct e; intro H; injection H as <- <-; reflexivity.
-  - destruct (negb (pump w)); [intro H; injection H as <- <-; reflexivity|].
-    set (w0 := match queue w with [] => advance c w | _ => w end).
-    assert (T0 : trace w0 = trace w) by (subst w0; destruct (queue w); [apply advance_trace|reflexivity]).
-    destruct (queue w0) as [|e rest]; [intro H; injection H as <- <-; exact T0|].
-    destruct e; intro H; injection H as <- <-; exact T0.
 Qed.
 
 Lemma run_op_ext f hr c o w r w' : run_op f hr c o w = (r, w') -> ext c w w'.
@@ -384,10 +360,15 @@ Proof.
   destruct e; [left|left|right; eauto]; destruct k as [|[|k]]; cbn; try apply N.eqb_refl; reflexivity.
 Qed.
 
+(* the receive does not have to synthesise a disconnect event: the receiver is running, or
+   bypassed, or (stopped by close()) still has something queued *)
+Definition receiver_has (c : cfg) (w : ws) : Prop :=
+  pump w = true \/ cap c = 0%nat \/ queue w <> [].
+
 Theorem recv_payload k c w r w' :
-  require_accepted w = None -> receiver_ok c w ->
+  require_accepted w = None -> receiver_has c w ->
   (cap c = 0%nat -> queue w = [] /\ hand w = None) ->
-  op_recv k c w = (r, w') -> r <> Blocked ->
+  op_recv true k c w = (r, w') -> r <> Blocked ->
   exists e, stream w = e :: stream w' /\ recv_ok k e r = true.
 Proof.
   intros Hreq Hrx Hpt Hs Hnb. unfold op_recv in Hs. rewrite Hreq in Hs.
@@ -402,18 +383,24 @@ Proof.
       try (destruct (recv_ok_kind k (CText n)) as [A|[c0 A]]; [exact A|discriminate]);
       try (destruct (recv_ok_kind k (CBin n)) as [A|[c0 A]]; [exact A|discriminate]).
     destruct k as [|[|k]]; cbn; apply Z.eqb_refl.
-  - assert (Hp : pump w = true).
-    { destruct Hrx as [A|[A|A]]; [exact A | rewrite A in Ec; discriminate | congruence]. }
-    rewrite Hp in Hs. cbn in Hs.
-    set (w0 := match queue w with [] => advance c w | _ => w end) in *.
-    assert (S0 : stream w0 = stream w) by (subst w0; destruct (queue w); [apply advance_stream|reflexivity]).
-    destruct (queue w0) as [|e rest] eqn:Eq; [injection Hs as <- <-; congruence|].
-    exists e. rewrite <- S0. rewrite (stream_eq w0), Eq.
-    destruct e as [n|n|co]; injection Hs as <- <-; cbn;
-      (split; [reflexivity|]);
-      try (destruct (recv_ok_kind k (CText n)) as [A|[c0 A]]; [exact A|discriminate]);
-      try (destruct (recv_ok_kind k (CBin n)) as [A|[c0 A]]; [exact A|discriminate]).
-    destruct k as [|[|k]]; cbn; apply Z.eqb_refl.
+  - destruct (pump w) eqn:Hp; cbn in Hs.
+    + set (w0 := match queue w with [] => advance c w | _ => w end) in *.
+      assert (S0 : stream w0 = stream w) by (subst w0; destruct (queue w); [apply advance_stream|reflexivity]).
+      destruct (queue w0) as [|e rest] eqn:Eq; [injection Hs as <- <-; congruence|].
+      exists e. rewrite <- S0. rewrite (stream_eq w0), Eq.
+      destruct e as [n|n|co]; injection Hs as <- <-; cbn;
+        (split; [reflexivity|]);
+        try (destruct (recv_ok_kind k (CText n)) as [A|[c0 A]]; [exact A|discriminate]);
+        try (destruct (recv_ok_kind k (CBin n)) as [A|[c0 A]]; [exact A|discriminate]).
+      destruct k as [|[|k]]; cbn; apply Z.eqb_refl.
+    + destruct (queue w) as [|e rest] eqn:Eq.
+      { destruct Hrx as [A|[A|A]]; [congruence | rewrite A in Ec; discriminate | congruence]. }
+      exists e. rewrite (stream_eq w), Eq.
+      destruct e as [n|n|co]; injection Hs as <- <-; cbn;
+        (split; [reflexivity|]);
+        try (destruct (recv_ok_kind k (CText n)) as [A|[c0 A]]; [exact A|discriminate]);
+        try (destruct (recv_ok_kind k (CBin n)) as [A|[c0 A]]; [exact A|discriminate]).
+      destruct k as [|[|k]]; cbn; apply Z.eqb_refl.
 Qed.
 
 (* every operation other than a receive and close() leaves the undelivered events alone *)
